@@ -39,6 +39,7 @@ func init() {
 			{"C08-R7", "trust-domain migration on every model", c08r7},
 			{"C08-R8", "stateful generators are constructed with their state", c08r8},
 			{"C08-R9", "the TCP/HTTP flag is a constant of the entry point", c08r9},
+			{"C08-R10", "a copied authz plugin builder starts with an empty memo", c08r10},
 		},
 	})
 }
@@ -655,4 +656,81 @@ func c08r9(c *Ctx) {
 func isWrapperFn(fn *ssa.Function) bool {
 	s := fn.Synthetic
 	return strings.HasPrefix(s, "wrapper") || strings.HasPrefix(s, "bound") || strings.HasPrefix(s, "thunk") || strings.HasPrefix(s, "from type") || strings.HasPrefix(s, "loaded from")
+}
+
+// C08-R10: a copied filter builder does not carry another listener's filters. The authz plugin builder memoises what it
+// built (httpBuilt/httpFilters, tcpBuilt/tcpFilters): the filters depend on how the peer identity is read (TLS
+// certificate vs. the io.istio.peer_principal filter state), so a builder derived from another one for a different kind of
+// listener must start with an empty memo. Wherever a plugin/authz.Builder value is copied (a store of a loaded Builder
+// into a new one), every path from the copy to a return resets each memo flag. Constructing a fresh builder
+// (NewBuilder) has nothing to reset. Memo fields are derived: the Builder fields that its own methods write.
+func c08r10(c *Ctx) {
+	p := c.P
+	pkgPA := "pilot/pkg/networking/plugin/authz"
+	bt := p.Struct(pkgPA, "Builder")
+	// memo fields: written by methods of *Builder
+	memo := map[*types.Var]bool{}
+	for _, fn := range p.AllFuncs {
+		if funcPkgPath(fn) != istioMod+"/"+pkgPA || fn.Signature.Recv() == nil || isWrapperFn(fn) || len(fn.Blocks) == 0 {
+			continue
+		}
+		recv := fn.Params[0]
+		eachInstr(fn, func(ins ssa.Instruction) {
+			st, ok := ins.(*ssa.Store)
+			if !ok {
+				return
+			}
+			if fa, ok := st.Addr.(*ssa.FieldAddr); ok && fa.X == ssa.Value(recv) && structOf(fa.X.Type()) == bt {
+				memo[fieldVar(fa.X.Type(), fa.Field)] = true
+			}
+		})
+	}
+	var flags []*types.Var
+	for f := range memo {
+		if b, ok := f.Type().Underlying().(*types.Basic); ok && b.Kind() == types.Bool {
+			flags = append(flags, f)
+		}
+	}
+	sort.Slice(flags, func(i, j int) bool { return flags[i].Name() < flags[j].Name() })
+	c.Check("the authz plugin builder memoises behind flags", token.NoPos, len(flags) >= 2, fmt.Sprintf("%d memo flags derived from the methods of plugin/authz.Builder", len(flags)))
+	nCopies := 0
+	for _, fn := range p.AllFuncs {
+		if !isIstioFunc(fn) || isWrapperFn(fn) || len(fn.Blocks) == 0 || strings.HasSuffix(p.Fset.Position(fn.Pos()).Filename, "_test.go") {
+			continue
+		}
+		eachInstr(fn, func(ins ssa.Instruction) {
+			st, ok := ins.(*ssa.Store)
+			if !ok {
+				return
+			}
+			// *dst = *src with both of struct type Builder
+			if structOf(types.NewPointer(st.Val.Type())) != bt {
+				return
+			}
+			u, ok := st.Val.(*ssa.UnOp)
+			if !ok || u.Op != token.MUL {
+				return
+			}
+			nCopies++
+			for _, f := range flags {
+				isReset := func(i ssa.Instruction) bool {
+					s2, ok := i.(*ssa.Store)
+					if !ok {
+						return false
+					}
+					fa, ok := s2.Addr.(*ssa.FieldAddr)
+					if !ok || fa.X != st.Addr || fieldVar(fa.X.Type(), fa.Field) != f {
+						return false
+					}
+					k, isC := constBool(s2.Val)
+					return isC && !k
+				}
+				hit := pathAvoiding(fn, st, isReset, isReturn)
+				c.Check("a copied authz plugin builder starts with an empty memo: "+stableFnName(fn)+"|"+f.Name(), st.Pos(), hit == nil,
+					"a plugin/authz.Builder is copied here and "+f.Name()+" is not reset on every path: the copy returns the filters memoised by the builder it was copied from - built for a different kind of listener (peer identity from the TLS certificate instead of the io.istio.peer_principal filter state) - so on the HBONE internal listener source-based DENY rules never match and ALLOW rules by source never admit")
+			}
+		})
+	}
+	c.Infof("copies of plugin/authz.Builder values: %d; memo flags: %d", nCopies, len(flags))
+	c.Floor(1)
 }
